@@ -30,12 +30,16 @@ package main
 //   C17  X (prefix) = the document value converted directly;  V = P;  V = X, else the difference is classified
 //        by the class of the generated value: valuepath-numberlike | -boollike | -quoted | -bracketed | -bigint |
 //        -reexpanded | -empty, anything else valuepath-other / prefix-mismatch / prop-differs.
+//        V3 with a declared default (`value:"${k:d}"`, `prop:"k:d"`, `prefix:"k"`): the same demands whenever k is
+//        configured — a default stands in for an absent key only — reported as valuepath-defaulted when the value is in
+//        none of the lossy classes; when k is absent only V = P is demanded.
 //        prefill-merged: a bound field still contains a piece of the default it held before Run.
 //        start-unstable: the same scenario bound different values in different start-ups.
 //   C18  the bound value = the expression evaluated directly with expr on the harness's own substitution of the
 //        placeholders (from the tag's syntax tree, not a regular expression), pushed through
 //        strconv2.FormatAny/ParseAny and mapstructure; Run fails ⇔ that direct path fails or the direct
-//        validator verdict is a failure.
+//        validator verdict is a failure.  Structs are also generated with a nested section (struct / pointer-to-struct
+//        member with its own `required`), absent, null, all-zero or filled: validate-iff.
 
 import (
 	"fmt"
@@ -345,6 +349,8 @@ func (c *vlCval) yaml() string {
 		return vlYamlStr(c.s)
 	case 'i':
 		return strconv.FormatInt(c.i, 10)
+	case 'F': // an integer valued float64, written with a fraction so that yaml.v3 reads a float
+		return strconv.FormatInt(c.i, 10) + ".0"
 	case 'f':
 		return c.s
 	case 'b':
@@ -1032,6 +1038,10 @@ func vlExpectRender(c *vlCval, t *vlFty) (string, bool) {
 		case 'D':
 			return vlRenderFloat(float64(c.i)), true
 		}
+	case 'F':
+		if t.k == 'D' {
+			return vlRenderFloat(float64(c.i)), true
+		}
 	case 'f':
 		if t.k == 'D' {
 			return "n" + c.s, true
@@ -1251,7 +1261,8 @@ func vlRunCase(c *vlVcase, w *hx.Writer) {
 			} else {
 				tree := tr
 				if names[i] == "prop" {
-					tree = []vlTnode{vlTPH(vlTagText(tr))}
+					// the shorthand `key[:default]` is the placeholder `${key[:default]}`
+					tree = vlParseTagTree("${"+vlTagText(tr)+"}", true)
 				}
 				s, err := vlDirectSubst(tree, cfgNative, &evals)
 				switch {
@@ -1429,6 +1440,12 @@ func vlOracleC17(c *vlVcase, obs []string, prior string) string {
 		if V != P {
 			return fmt.Sprintf("FAIL prop-differs value=%s prop=%s", V, P)
 		}
+		// `${key:default}` / `prop:"key:default"`: a declared default stands in for a key that is NOT configured;
+		// then there is no configured value and nothing to compare with the prefix twin
+		defaulted := vlDeclaresDefault(c.tags[0])
+		if defaulted && c.subject.k == 'z' {
+			return ""
+		}
 		if want, ok := vlExpectRender(c.subject, c.t); ok && c.subject.k != 'z' && X != want {
 			return fmt.Sprintf("FAIL prefix-mismatch prefix=%s document=%s", X, want)
 		}
@@ -1439,6 +1456,9 @@ func vlOracleC17(c *vlVcase, obs []string, prior string) string {
 			sig := "other"
 			if len(classes) > 0 {
 				sig = classes[0]
+			} else if defaulted {
+				// the key IS configured (and the value is in none of the lossy classes): the declared default is irrelevant
+				sig = "defaulted"
 			}
 			return fmt.Sprintf("FAIL valuepath-%s value=%s prefix=%s", sig, V, X)
 		}
@@ -1454,6 +1474,11 @@ func vlOracleC17(c *vlVcase, obs []string, prior string) string {
 		return fmt.Sprintf("FAIL valuepath-%s literal bound as %s, written %s", sig, V, want)
 	}
 	return ""
+}
+
+// vlDeclaresDefault: the value tag is the single placeholder `${key:default}`.
+func vlDeclaresDefault(tr []vlTnode) bool {
+	return len(tr) == 1 && tr[0].kind == 'p' && tr[0].dflt != nil
 }
 
 // ---------------------------------------------------------------- replay
@@ -1571,7 +1596,8 @@ func vlValueReplay(scn string, w *hx.Writer) {
 			}
 		}
 		tr := c.tags[0]
-		c.literal = !(len(tr) == 1 && tr[0].kind == 'p' && tr[0].key == key && tr[0].dflt == nil)
+		// `${key}` or `${key:default}` next to `prop:"key[:default]"` and `prefix:"key"`; anything else is a literal
+		c.literal = !(len(tr) == 1 && tr[0].kind == 'p' && tr[0].key == key)
 	}
 	vlRunCase(c, w)
 }
@@ -2128,6 +2154,116 @@ func vlGenFlagsC17(r *hx.Rng, c *vlVcase) {
 	c.dep = r.P(1, 10)
 }
 
+// vlGenDefaultText: a default that fits the field type and differs from the configured value (plain words, short
+// canonical numbers, booleans, short bracketed lists/maps: nothing of the lossy classes, no prefill marker).
+func vlGenDefaultText(r *hx.Rng, t *vlFty, v *vlCval) string {
+	word := func() string {
+		w := vlGenPlainWord(r)
+		if v.k == 's' && v.s == w {
+			w += "q"
+		}
+		return w
+	}
+	num := func() string {
+		n := int64(1 + r.Intn(99))
+		if (v.k == 'i' || v.k == 'F') && v.i == n {
+			n++
+		}
+		return strconv.FormatInt(n, 10)
+	}
+	switch t.k {
+	case 'S':
+		return word()
+	case 'I', 'J', 'U':
+		return num()
+	case 'D':
+		if r.Bool() {
+			return num()
+		}
+		return strconv.Itoa(r.Intn(9)) + "." + string(byte('1'+r.Intn(9)))
+	case 'B':
+		if v.k == 'b' {
+			return strconv.FormatBool(!v.b)
+		}
+		return strconv.FormatBool(r.Bool())
+	case 'A':
+		switch v.k {
+		case 'b':
+			return strconv.FormatBool(!v.b)
+		case 'i', 'F', 'f':
+			return num()
+		}
+		return word()
+	case 'P':
+		return vlGenDefaultText(r, t.elem, v)
+	case 'L':
+		switch t.elem.k {
+		case 'I', 'J', 'U', 'D':
+			return "[" + num() + "," + num() + "]"
+		}
+		return "[" + word() + "," + word() + "]"
+	case 'M':
+		return "map[kq:" + word() + "]"
+	}
+	return "map[kq:" + num() + "]" // a struct: no member is called kq
+}
+
+// vlGenC17Default: the placeholder and the shorthand DECLARE A DEFAULT (`value:"${key:dflt}"`, `prop:"key:dflt"`) next to
+// the prefix twin `prefix:"key"`.  A default stands in for a key that is not configured; when the key is configured
+// — in half of the cases with the ZERO VALUE of its kind: false, 0, 0.0, "" — the three fields must still agree.
+func vlGenC17Default(r *hx.Rng) *vlVcase {
+	var t *vlFty
+	var v *vlCval
+	labels := []string{"defaulted"}
+	switch k := r.Intn(12); {
+	case k < 6:
+		switch r.Intn(8) {
+		case 0, 1:
+			t, v = []*vlFty{vlTB, vlTB, vlTS, vlTA}[r.Intn(4)], vlCBool(false)
+		case 2, 3, 4:
+			t, v = []*vlFty{vlTI, vlTJ, vlTU, vlTD, vlTS, vlTA, vlTPI}[r.Intn(7)], vlCInt(0)
+		case 5, 6:
+			t, v = []*vlFty{vlTD, vlTD, vlTS, vlTA, vlTI}[r.Intn(5)], &vlCval{k: 'F', i: 0}
+		default:
+			t, v = []*vlFty{vlTS, vlTPS, vlTA}[r.Intn(3)], vlCStr("") // the known class `empty`
+		}
+		labels = append(labels, "zero-value")
+	case k < 9:
+		t = vlGenType(r)
+		v = vlGenForType(r, t)
+		labels = append(labels, "matching")
+	case k < 10:
+		t, v = []*vlFty{vlTD, vlTA, vlTS}[r.Intn(3)], &vlCval{k: 'F', i: int64(r.Intn(2000)) - 1000}
+		labels = append(labels, "matching")
+	case k < 11:
+		t, v = vlGenWeakPair(r)
+		labels = append(labels, "weak")
+	default:
+		t = vlGenType(r)
+		v = vlCNull()
+		labels = append(labels, "absent")
+	}
+	key := vlGenKey(r)
+	dflt := vlGenDefaultText(r, t, v)
+	kv := map[string]*vlCval{"kz": vlCStr("zz")}
+	if v.k != 'z' {
+		kv[key] = v
+	}
+	c := &vlVcase{kind: "V3", t: t, cfg: vlCMap(kv), subject: v,
+		tags: [][]vlTnode{{vlTPHD(key, dflt)}, {vlTLit(key + ":" + dflt)}, {vlTLit(key)}}}
+	if r.P(1, 8) || v.k == 'z' && r.P(1, 2) {
+		c.args = ",required=false"
+		labels = append(labels, "optional")
+	}
+	labels = append(labels, "type-"+string(t.k))
+	for _, cl := range vlRiskClasses(v) {
+		labels = append(labels, "class-"+cl)
+	}
+	c.labels = labels
+	vlGenFlagsC17(r, c)
+	return c
+}
+
 // literal written in a value tag
 func vlGenC17Literal(r *hx.Rng) *vlVcase {
 	var t *vlFty
@@ -2179,6 +2315,9 @@ type vlExprGen struct {
 	r   *hx.Rng
 	cfg map[string]*vlCval
 	n   int
+	// dfl: placeholders of configured operands declare a default (`${k:d}`) that differs from the configured value, and
+	// the configured values lean towards the zero values (0, false): the configured value is what the expression sees
+	dfl bool
 }
 
 func (g *vlExprGen) freshKey() string {
@@ -2192,6 +2331,22 @@ func (g *vlExprGen) intOperand() []vlTnode {
 	n := int64(r.Intn(200)) - 50
 	if r.P(1, 10) {
 		n = int64(r.Intn(1 << 30))
+	}
+	if g.dfl && r.P(2, 3) {
+		if r.Bool() {
+			n = 0
+		}
+		k := g.freshKey()
+		g.cfg[k] = vlCInt(n)
+		d := int64(1 + r.Intn(40))
+		if d == n {
+			d++
+		}
+		ph := []vlTnode{vlTPHD(k, strconv.FormatInt(d, 10))}
+		if n < 0 {
+			return vlCat(vlLit("("), ph, vlLit(")"))
+		}
+		return ph
 	}
 	switch r.Intn(5) {
 	case 0, 1:
@@ -2249,6 +2404,11 @@ func (g *vlExprGen) strOperand() []vlTnode {
 func (g *vlExprGen) boolOperand() []vlTnode {
 	r := g.r
 	b := r.Bool()
+	if g.dfl && r.P(2, 3) {
+		k := g.freshKey()
+		g.cfg[k] = vlCBool(b)
+		return []vlTnode{vlTPHD(k, strconv.FormatBool(!b))}
+	}
 	if r.P(1, 2) {
 		return []vlTnode{vlTLit(strconv.FormatBool(b))}
 	}
@@ -2328,11 +2488,17 @@ func (g *vlExprGen) str() []vlTnode {
 }
 
 // genExprCase: `#{…}` (possibly with text around it) bound to a compatible field
-func vlGenExprCase(r *hx.Rng) *vlVcase {
-	g := &vlExprGen{r: r, cfg: map[string]*vlCval{}}
+func vlGenExprCase(r *hx.Rng) *vlVcase { return vlGenExprCaseWith(r, false) }
+
+// vlGenExprCaseWith: dfl = the operands taken from the configuration declare defaults (see vlExprGen.dfl)
+func vlGenExprCaseWith(r *hx.Rng, dfl bool) *vlVcase {
+	g := &vlExprGen{r: r, cfg: map[string]*vlCval{}, dfl: dfl}
 	var body []vlTnode
 	var t *vlFty
 	labels := []string{"expr"}
+	if dfl {
+		labels = append(labels, "defaulted-operands")
+	}
 	switch k := r.Intn(12); {
 	case k < 4:
 		body = g.arith(1 + r.Intn(3))
@@ -2518,6 +2684,123 @@ func vlGenValidateCase(r *hx.Rng) *vlVcase {
 	return c
 }
 
+// vlGenNestedValidateCase: a struct (or pointer to struct) bound with `,validate` whose members include a NESTED section
+// — a struct member (or pointer-to-struct member) that carries its own constraint, mostly `required` — with the
+// section absent from / null in / all-zero in / filled in the configuration.  The other members are, half of the time,
+// chosen to satisfy their constraints, so that the nested member alone decides the outcome.
+func vlGenNestedValidateCase(r *hx.Rng) *vlVcase {
+	labels := []string{"validate", "struct", "nested"}
+	pick := func(opts ...string) string { return opts[r.Intn(len(opts))] }
+	small := func() string { return strconv.Itoa(r.Intn(12)) }
+	key := vlGenKey(r)
+	outer := &vlFty{k: 'T'}
+	kv := map[string]*vlCval{}
+	safe := r.Bool()
+	if safe {
+		labels = append(labels, "members-valid")
+	}
+	nestAt := 0
+	n := r.Intn(3)
+	if n > 0 {
+		nestAt = r.Intn(n + 1)
+	}
+	// the nested section
+	inner := &vlFty{k: 'T'}
+	ikvZero, ikvSet := map[string]*vlCval{}, map[string]*vlCval{}
+	m := 1 + r.Intn(2)
+	for j := 0; j < m; j++ {
+		name := fmt.Sprintf("ki%d", j)
+		switch r.Intn(3) {
+		case 0:
+			inner.fields = append(inner.fields, vlFfield{name, vlTI, pick("", "", "min=1", "gte=0", "max=50")})
+			ikvZero[name], ikvSet[name] = vlCInt(0), vlCInt(int64(1+r.Intn(60)))
+		case 1:
+			inner.fields = append(inner.fields, vlFfield{name, vlTS, pick("", "", "required", "min=2", "max=4")})
+			ikvZero[name], ikvSet[name] = vlCStr(""), vlCStr(vlGenPlainWord(r))
+		default:
+			inner.fields = append(inner.fields, vlFfield{name, vlTB, ""})
+			ikvZero[name], ikvSet[name] = vlCBool(false), vlCBool(true)
+		}
+	}
+	nestT := inner
+	if r.P(1, 4) {
+		nestT = &vlFty{k: 'P', elem: inner}
+		labels = append(labels, "nested-pointer")
+	}
+	nestCons := pick("required", "required", "required", "")
+	var nestV *vlCval // nil = the section is absent
+	switch r.Intn(7) {
+	case 0, 1, 2:
+		labels = append(labels, "section-absent")
+	case 3:
+		nestV = vlCNull()
+		labels = append(labels, "section-null")
+	case 4:
+		nestV = vlCMap(ikvZero)
+		labels = append(labels, "section-zero")
+	default:
+		nestV = vlCMap(ikvSet)
+		labels = append(labels, "section-set")
+	}
+	addNested := func() {
+		outer.fields = append(outer.fields, vlFfield{"kn", nestT, nestCons})
+		if nestV != nil {
+			kv["kn"] = nestV
+		}
+	}
+	for i := 0; i < n; i++ {
+		if i == nestAt {
+			addNested()
+		}
+		name := fmt.Sprintf("kf%d", i)
+		if r.Bool() {
+			iv := int64(r.Intn(12))
+			cons := pick("min=", "max=", "eq=", "ne=", "gte=", "lt=") + small() + pick("", "", ",required")
+			if safe {
+				iv = int64(1 + r.Intn(9))
+				cons = pick("min=1", "gte=0", "ne=0", "required", "max=9", "required,lte=100")
+			}
+			outer.fields = append(outer.fields, vlFfield{name, vlTI, cons})
+			kv[name] = vlCInt(iv)
+		} else {
+			sv := pick("", vlGenPlainWord(r), vlGenDigits(r, 2, true))
+			cons := pick("required", "number", "min=2", "max=3", "len=2", "oneof=red green 12", "required,min=2")
+			if safe {
+				sv = vlGenPlainWord(r) + "z"
+				cons = pick("required", "min=1", "max=9", "required,min=2")
+			}
+			outer.fields = append(outer.fields, vlFfield{name, vlTS, cons})
+			kv[name] = vlCStr(sv)
+		}
+		if !safe && r.P(1, 8) {
+			delete(kv, name)
+		}
+	}
+	if nestAt >= n {
+		addNested()
+	}
+	if len(kv) == 0 {
+		kv["kother"] = vlCInt(1)
+	}
+	t := outer
+	if r.P(1, 3) {
+		t = &vlFty{k: 'P', elem: outer}
+	}
+	c := &vlVcase{kind: "E", t: t, args: ",validate", tags: [][]vlTnode{{vlTPH(key)}}}
+	switch r.Intn(8) {
+	case 0, 1: // bound by prefix instead
+		c.kind = "Q"
+		c.tags = [][]vlTnode{{vlTLit(key)}}
+		labels = append(labels, "by-prefix")
+	case 2: // optional and present
+		c.args += ",required=false"
+	}
+	c.cfg = vlCMap(map[string]*vlCval{key: vlCMap(kv)})
+	c.labels = labels
+	c.dep = r.P(3, 10) // drawn last
+	return c
+}
+
 // vlReseed decorrelates consecutive seeds: hx.NewRng(s+1) is hx.NewRng(s) advanced by one draw, so without this
 // the seeds s, s+1, s+2 of the thorough tier would generate the same cases shifted by one.
 func vlReseed(rng *hx.Rng) *hx.Rng { return hx.NewRng(rng.U64() ^ 0x5bd1e9955bd1e995) }
@@ -2526,9 +2809,12 @@ func vlValueGen(rng *hx.Rng, n int, tier string, w *hx.Writer) {
 	rng = vlReseed(rng)
 	for i := 0; i < n; i++ {
 		r := rng.Fork()
-		if r.P(1, 8) {
+		switch {
+		case i%6 == 4: // every sixth case declares a default in the placeholder and in the shorthand
+			vlRunCase(vlGenC17Default(r), w)
+		case r.P(1, 8):
 			vlRunCase(vlGenC17Literal(r), w)
-		} else {
+		default:
 			vlRunCase(vlGenC17(r), w)
 		}
 	}
@@ -2539,9 +2825,14 @@ func init() {
 		rng = vlReseed(rng)
 		for i := 0; i < n; i++ {
 			r := rng.Fork()
-			if i%2 == 0 {
+			switch {
+			case i%12 == 5: // structs with a nested section that carries its own constraint
+				vlRunCase(vlGenNestedValidateCase(r), w)
+			case i%12 == 4: // expressions whose configured operands declare defaults
+				vlRunCase(vlGenExprCaseWith(r, true), w)
+			case i%2 == 0:
 				vlRunCase(vlGenExprCase(r), w)
-			} else {
+			default:
 				vlRunCase(vlGenValidateCase(r), w)
 			}
 		}
@@ -2608,6 +2899,21 @@ func vlValueCorpus(w *hx.Writer) {
 		vlRunCase(vlWith(vlC17case(vlTLS, vlCList(), ""), true, dep), w)
 		vlRunCase(vlWith(vlC17case(vlTLS, vlCStr("solo"), ""), true, dep), w)
 	}
+	// a declared default (`${k:d}`, `prop:"k:d"`) stands in for an absent key only: a configured value wins, also when it
+	// is the zero value of its kind
+	for _, d := range []struct {
+		t    *vlFty
+		v    *vlCval
+		dflt string
+		args string
+	}{{vlTB, vlCBool(false), "true", ""}, {vlTI, vlCInt(0), "3", ""}, {vlTD, &vlCval{k: 'F', i: 0}, "0.5", ""}, {vlTS, vlCInt(0), "3", ""},
+		{vlTA, vlCBool(false), "true", ""}, {vlTPI, vlCInt(0), "3", ",required=false"}, {vlTI, vlCInt(7), "3", ""}, {vlTS, vlCStr("plain"), "other", ""},
+		{vlTB, vlCBool(true), "false", ""}, {vlTD, &vlCval{k: 'F', i: 12}, "0.5", ""}, {vlTLS, vlCList(vlCStr("a")), "[x,y]", ""},
+		{vlTS, vlCNull(), "other", ""}, {vlTI, vlCNull(), "3", ",required=false"}, {vlTLI, vlCNull(), "[1,2]", ""}} {
+		c := vlC17case(d.t, d.v, d.args, "defaulted")
+		c.tags = [][]vlTnode{{vlTPHD("k", d.dflt)}, {vlTLit("k:" + d.dflt)}, {vlTLit("k")}}
+		vlRunCase(c, w)
+	}
 	// literals
 	for _, l := range []struct {
 		t   *vlFty
@@ -2673,6 +2979,27 @@ func vlValueExprCorpus(w *hx.Writer) {
 	vlRunCase(vlExprCase(&vlFty{k: 'P', elem: st}, m("a", 80), ",validate", vlTPH("k")), w)
 	q := &vlVcase{kind: "Q", t: st, cfg: vlCMap(m("a", 80)), args: ",validate", tags: [][]vlTnode{{vlTLit("k")}}, labels: []string{"corpus"}}
 	vlRunCase(q, w)
+	// a nested section with its own constraint: `required` on a struct member is violated by an absent / all-zero section
+	ep := &vlFty{k: 'T', fields: []vlFfield{{"host", vlTS, ""}, {"port", vlTI, ""}}}
+	cl := &vlFty{k: 'T', fields: []vlFfield{{"name", vlTS, "required"}, {"endpoint", ep, "required"}}}
+	clOpt := &vlFty{k: 'T', fields: []vlFfield{{"name", vlTS, "required"}, {"endpoint", ep, ""}}}
+	clPtr := &vlFty{k: 'T', fields: []vlFfield{{"name", vlTS, "required"}, {"endpoint", &vlFty{k: 'P', elem: ep}, "required"}}}
+	full := map[string]*vlCval{"k": vlCMap(map[string]*vlCval{"name": vlCStr("svc"), "endpoint": vlCMap(map[string]*vlCval{"host": vlCStr("h"), "port": vlCInt(80)})})}
+	noEp := map[string]*vlCval{"k": vlCMap(map[string]*vlCval{"name": vlCStr("svc")})}
+	zeroEp := map[string]*vlCval{"k": vlCMap(map[string]*vlCval{"name": vlCStr("svc"), "endpoint": vlCMap(map[string]*vlCval{"host": vlCStr(""), "port": vlCInt(0)})})}
+	for _, ty := range []*vlFty{cl, {k: 'P', elem: cl}, clOpt, clPtr} {
+		for _, cf := range []map[string]*vlCval{full, noEp, zeroEp} {
+			vlRunCase(vlExprCase(ty, cf, ",validate", vlTPH("k")), w)
+			vlRunCase(&vlVcase{kind: "Q", t: ty, cfg: vlCMap(cf), args: ",validate", tags: [][]vlTnode{{vlTLit("k")}}, labels: []string{"corpus"}}, w)
+		}
+	}
+	vlRunCase(vlExprCase(cl, noEp, "", vlTPH("k")), w) // no validate argument
+	// a placeholder that declares a default inside an expression: the configured value is substituted, also 0 and false
+	zcfg := map[string]*vlCval{"n0": vlCInt(0), "f0": vlCBool(false), "d0": {k: 'F', i: 0}, "a": two}
+	vlRunCase(vlExprCase(vlTI, zcfg, "", vlTExpr(vlTPHD("n0", "7"), vlTLit("*2+"), vlTPHD("a", "9"))), w)
+	vlRunCase(vlExprCase(vlTB, zcfg, "", vlTExpr(vlTPHD("f0", "true"), vlTLit(" || 1 > 2"))), w)
+	vlRunCase(vlExprCase(vlTD, zcfg, "", vlTExpr(vlTPHD("d0", "0.5"), vlTLit(" + 1.5"))), w)
+	vlRunCase(vlExprCase(vlTS, zcfg, "", vlTLit("retry/"), vlTPHD("n0", "3"), vlTLit("/x")), w)
 	// holders that also have a component field: both property groups reach the processors, in either order
 	vlRunCase(vlWith(vlExprCase(vlTI, cfg, "", vlTExpr(vlTPH("a"), vlTLit("+"), vlTPH("b"), vlTLit("*2"))), false, true), w)
 	vlRunCase(vlWith(vlExprCase(vlTB, cfg, "", vlTExpr(vlTPH("a"), vlTLit("+"), vlTPH("b"), vlTLit(">2"))), false, true), w)
